@@ -314,7 +314,7 @@ C08_run(H) ==
 (***************************************************************************)
 (* C10  Failure atomicity, causes, handles                                 *)
 (***************************************************************************)
-FatalFaults(H) == {i \in DOMAIN H.flt : H.flt[i].class = "fatal"
+FatalFaults(H) == {i \in DOMAIN H.flt : H.flt[i].class \in {"fatal", "enobufs", "eperm"}
                        /\ H.flt[i].op \in {"newsink", "newsource", "setfilter", "setdeadline", "read", "write"}}
 ZeroFaults(H) == {i \in DOMAIN H.flt : H.flt[i].class = "zero"}
 
